@@ -141,3 +141,62 @@ Definition spec_range_has (start stop step : Z) (y : num) : option bool :=
       | None => None
       end
   end.
+
+(* =====================================================================
+   text: int(string, base) per doc/spec.md -- optional sign, then either
+   (base 0) an integer literal with optional 0x/0o/0b prefix, or (explicit base)
+   an optional matching prefix followed by at least one digit of the base.
+   Strings are lists of bytes.  base is 0 or 2..36 (validated by the caller).
+   ===================================================================== *)
+Import ListNotations.
+
+Definition spec_digit (c : Z) : Z :=
+  if (48 <=? c) && (c <=? 57) then c - 48
+  else if (97 <=? c) && (c <=? 122) then c - 97 + 10
+  else if (65 <=? c) && (c <=? 90) then c - 65 + 10
+  else -1.
+
+Definition spec_digits (base : Z) (s : list Z) : option Z :=
+  match s with
+  | [] => None
+  | _ => if forallb (fun c => (0 <=? spec_digit c) && (spec_digit c <? base)) s
+         then Some (fold_left (fun acc c => acc * base + spec_digit c) s 0)
+         else None
+  end.
+
+Definition spec_prefix (body : list Z) : Z :=
+  match body with
+  | c0 :: c1 :: _ =>
+      if c0 =? 48 then
+        if (c1 =? 120) || (c1 =? 88) then 16
+        else if (c1 =? 111) || (c1 =? 79) then 8
+        else if (c1 =? 98) || (c1 =? 66) then 2 else 0
+      else 0
+  | _ => 0
+  end.
+
+Definition spec_parse (s : list Z) (base : Z) : option Z :=
+  let '(sgn, body) :=
+    match s with
+    | c :: t => if c =? 45 then (-1, t) else if c =? 43 then (1, t) else (1, s)
+    | [] => (1, s)
+    end in
+  let pre := spec_prefix body in
+  let r :=
+    if base =? 0 then
+      if negb (pre =? 0) then spec_digits pre (skipn 2 body)
+      else match body with
+           | c0 :: _ :: _ => if c0 =? 48
+                             then (if forallb (fun c => c =? 48) body then Some 0 else None)
+                             else spec_digits 10 body
+           | _ => spec_digits 10 body
+           end
+    else if (pre =? base) && (2 <? Z.of_nat (length body)) then spec_digits base (skipn 2 body)
+    else spec_digits base body in
+  match r with Some v => Some (sgn * v) | None => None end.
+
+Definition spec_int_of_string (s : list Z) (base : option Z) : option Z :=
+  match base with
+  | None => spec_parse s 10
+  | Some b => if (b =? 0) || ((2 <=? b) && (b <=? 36)) then spec_parse s b else None
+  end.
